@@ -253,3 +253,28 @@ func VerifC17_ParamsAdmitFormula() {
 	zz.Assert(panicked || got != nil, "a base fee is computed when enabled")
 	zz.Reach("end")
 }
+
+// VerifC01_BaseFeeNoProcessState: the base fee is a function of the stored state and the block alone. Computing it twice
+// from the same state - as a node does that answers a trace / fee-history query before executing the block, or two
+// replicas living in one process - gives the same value both times, also right after a computation that went through the
+// "increase rounds to zero, raise by 1" corner (which works on shared package-level big.Int constants).
+func VerifC01_BaseFeeNoProcessState() {
+	e := c17Setup()
+	zz.Assume(c17TargetPositive(e))
+	zz.Assume(!e.params.NoBaseFee)
+	zz.Assume(e.height > e.params.EnableHeight)
+	g0 := zz.AnyUint64("earlierGas")
+	g := zz.AnyUint64("gas")
+	// a first computation for g, on a fresh process
+	e.k.SetBlockGasWanted(e.ctx, g)
+	fresh := e.k.CalculateBaseFee(e.ctx)
+	// the same process computes something else in between (another block, a query) ...
+	e.k.SetBlockGasWanted(e.ctx, g0)
+	_ = e.k.CalculateBaseFee(e.ctx)
+	// ... and then the same thing again
+	e.k.SetBlockGasWanted(e.ctx, g)
+	again := e.k.CalculateBaseFee(e.ctx)
+	zz.Assert(fresh != nil && again != nil, "base fees computed")
+	zz.Assert(zz.BigEq(fresh, again), "the same stored state and block give the same base fee, whatever the process computed before")
+	zz.Reach("end")
+}
